@@ -32,6 +32,53 @@ def register(db):
                        "markup HTMLDocument appends to <head>; dependencies == the stored list (a deep copy)")
     c3.harness, c3.pure = textdoc_render_harness, True
     db.add(c3)
+    register_c18(db)
+
+
+def register_c18(db):
+    UTIL = "htmltools._util."
+    db.add(Contract(name=UTIL + "hash_deterministic", params=[("s", "Str")], returns="Str", ensures=["result == sha1hex(s)"], props=["C18"],
+                    note="the digest is sha1 of the UTF-8 text: a function of the string only (not hash(), not id())"))
+    c = Contract(name=CORE + "head_content", params=[("args", "ChildList")], returns="Any", props=["C18", "C11"],
+                 note="head_content(*args) is an HTMLDependency named 'headcontent_' + sha1(rendering of the content), version 0.0, carrying the content as head")
+    c.harness, c.pure = head_content_harness, True
+    db.add(c)
+
+
+def head_content_harness(I, c):
+    from ..symexec import PyRec, SAdt, SStr, Obligation, Unsupported
+    from ..calls import Star
+    args = SAdt("ChildList", I.fresh("ChildList", "args"), fresh=False, pyclass="tuple")
+    paths = _run(I, c, {"args": args})
+    obs = list(I.obligations)
+    I.obligations = []
+    short = c.name.replace("htmltools.", "")
+    content = I.F("nodes", args.t)
+    I.fn_qual, I.module = c.name, I.src.split(c.name)[0]
+    for pi, p in enumerate(paths):
+        with I.at_path(p):
+            tag = f"R:{short}:path{pi}"
+            where = f"{c.name} decisions={''.join(map(str, p.decisions))}"
+            if p.outcome == "raise":
+                ok = z3.Or(z3.And(I.F("bad", args.t), z3.BoolVal(p.value.name == "TypeError")), z3.And(I.F("hasObL", content), z3.BoolVal(p.value.name == "RuntimeError")))
+                obs.append(Obligation(f"{tag}.raises-{p.value.name}", p.pc, ok, where, "R", "raises only for an unsupported child (TypeError) or an un-expandable object (RuntimeError)"))
+                continue
+            r = p.value
+            if not (isinstance(r, PyRec) and r.cls == "HTMLDependency"):
+                obs.append(Obligation(f"{tag}.result", p.pc, z3.BoolVal(False), where, "R", "returns an HTMLDependency"))
+                continue
+            try:
+                nm = I.coerce_param(r.fields["name"], "Str")
+                obs.append(Obligation(f"{tag}.name", p.pc, nm.t == I.F("headName", content), where, "R", "name == 'headcontent_' + sha1(rendering of the content): a function of the rendered content only"))
+                hd = I.to_val(I.coerce_param(r.fields["head"], "NodeList"))
+                obs.append(Obligation(f"{tag}.head", p.pc, hd.v == content, where, "R", "the dependency carries the content as its head"))
+                ver = r.fields.get("version")
+                obs.append(Obligation(f"{tag}.version", p.pc, ver.t == z3.StringVal("0.0") if isinstance(ver, SStr) else z3.BoolVal(False), where, "R", "version is the constant 0.0"))
+            except (Unsupported, KeyError) as ex:
+                obs.append(Obligation(f"{tag}.ensures", p.pc, z3.BoolVal(False), where, "R", str(ex)))
+    obs.extend(I.obligations)
+    I.obligations = []
+    return obs
 
 
 def _run(I, c, env, qual=None):
